@@ -35,6 +35,10 @@ type c17Op struct {
 func (o c17Op) String() string { return fmt.Sprintf("%s(%d,%d)", o.Op, o.A, o.B) }
 
 var c17Topics = []string{"t1", "t2"}
+
+// c17Worlds: topic-name pairs. World 1 has one name that is a strict prefix of the other, so that any cleanup keyed
+// by a name prefix on either store touches the sibling topic. A history selects its world with a leading World op.
+var c17Worlds = [][]string{{"t1", "t2"}, {"t1", "t1x"}}
 var c17GroupIDs = []string{"g1", "g2"}
 
 func c17ErrClass(err error) string {
@@ -106,6 +110,9 @@ func c17RenderMeta(m *ClusterMetadata, err error) string {
 func c17Apply(s Store, o c17Op) string {
 	ctx := context.Background()
 	switch o.Op {
+	case "World":
+		c17Topics = c17Worlds[o.A]
+		return "ok"
 	case "CreateTopic":
 		t, err := s.CreateTopic(ctx, TopicSpec{Name: c17Topics[o.A], NumPartitions: int32(o.B), ReplicationFactor: 1})
 		if err != nil {
@@ -236,7 +243,7 @@ func c17Classify(o c17Op, hist []c17Op, mem, etcd string) string {
 func TestVerifC17(t *testing.T) {
 	rep := vh.New(t, "C17")
 	defer rep.Finish()
-	rep.Rule = "BFS over histories of mutating store operations (create/delete/grow topic, update offsets/config, commit, put/delete group on 2 topics and 2 groups); every history is replayed on a fresh InMemoryStore and a fresh EtcdStore (fake etcd) and the rendered result of every operation, followed by every observer operation in the reached state, is compared; states merged by the rendered observer results of the in-memory store"
+	rep.Rule = "BFS over histories of mutating store operations (create/delete/grow topic, update offsets/config, commit, put/delete group on 2 topics and 2 groups; two name worlds: unrelated names from the empty store, and one name a strict prefix of the other from the state in which both topics exist); every history is replayed on a fresh InMemoryStore and a fresh EtcdStore (fake etcd) and the rendered result of every operation, followed by every observer operation in the reached state, is compared; states merged by the rendered observer results of the in-memory store"
 	rep.Assumptions = []string{"fake etcd stands for etcd; EtcdStore built like NewEtcdStore minus the dial, without watchers (single broker)", "TopicConfig.CreatedAt (wall clock) excluded from the comparison", "error values compared by class (nil / ErrUnknownTopic / ErrTopicExists / ErrInvalidTopic / message)"}
 	mut, obs := c17Alphabet()
 	depth := 3
@@ -272,6 +279,7 @@ func TestVerifC17(t *testing.T) {
 	check := func(hist []c17Op) (key string, ok bool) {
 		p := c17Fresh()
 		defer p.etcd.Close()
+		c17Topics = c17Worlds[0]
 		for i, o := range hist {
 			a, b := c17Apply(p.mem, o), c17Apply(p.etcd, o)
 			if a != b {
@@ -293,38 +301,52 @@ func TestVerifC17(t *testing.T) {
 		}
 		return sb.String(), true
 	}
-	k0, _ := check(nil)
-	seen[k0] = true
-	states = 1
-	for d := 0; d < depth && len(frontier) > 0; d++ {
-		var next []node
-		for _, n := range frontier {
-			if time.Now().After(deadline) {
-				rep.Cap(fmt.Sprintf("deadline at depth %d", d+1))
-				frontier = nil
-				next = nil
-				break
-			}
-			for _, o := range mut {
-				hist := append(append([]c17Op{}, n.hist...), o)
-				transitions++
-				key, ok := check(hist)
-				rep.Eval(1)
-				rep.Outcome(key, len(hist) >= 2)
-				if !ok {
-					continue // a differing transition: its successors would only repeat the difference
+	// world 0 starts from the empty store; world 1 (prefix-related names) starts from the state in which both topics
+	// exist and explores one level less
+	type start struct {
+		init  []c17Op
+		depth int
+	}
+	starts := []start{{nil, depth}, {[]c17Op{{"World", 1, 0}, {"CreateTopic", 0, 1}, {"CreateTopic", 1, 2}}, depth - 1}}
+	for wi, st := range starts {
+		k0, ok0 := check(st.init)
+		if !ok0 {
+			continue
+		}
+		seen[fmt.Sprint(wi)+k0] = true
+		states++
+		frontier = []node{{st.init}}
+		for d := 0; d < st.depth && len(frontier) > 0; d++ {
+			var next []node
+			for _, n := range frontier {
+				if time.Now().After(deadline) {
+					rep.Cap(fmt.Sprintf("deadline at depth %d", d+1))
+					frontier = nil
+					next = nil
+					break
 				}
-				if !seen[key] {
-					seen[key] = true
-					states++
-					next = append(next, node{hist})
-					if len(hist) >= 2 {
-						rep.Sample(fmt.Sprint(hist))
+				for _, o := range mut {
+					hist := append(append([]c17Op{}, n.hist...), o)
+					transitions++
+					key, ok := check(hist)
+					rep.Eval(1)
+					rep.Outcome(key, len(hist) >= 2)
+					if !ok {
+						continue // a differing transition: its successors would only repeat the difference
+					}
+					key = fmt.Sprint(wi) + key
+					if !seen[key] {
+						seen[key] = true
+						states++
+						next = append(next, node{hist})
+						if len(hist) >= 2 {
+							rep.Sample(fmt.Sprint(hist))
+						}
 					}
 				}
 			}
+			frontier = next
 		}
-		frontier = next
 	}
 	rep.Count("states", int64(states))
 	rep.Count("transitions", int64(transitions))
